@@ -341,6 +341,17 @@ def make_class(tag, other=None):
     return Account
 
 
+@icontract.invariant(lambda self: HUB.inv("interval:" + str(self.x), self) and self.x > 0)
+class Interval(icontract.DBC):
+    """Constructed by __new__ alone; the construction builds further objects of the same class on its way."""
+
+    def __new__(cls, x, inner=None):
+        self = super().__new__(cls)
+        self.x = x
+        self.inner = None if inner is None else Interval(inner)
+        return self
+
+
 First = make_class("first")
 first = First()
 Second = make_class("second", other=first)
@@ -354,6 +365,26 @@ def run_same_def(w) -> None:
     loaded = prog.load_source(SAME_DEF_SOURCE, w.scratch())
     mod, hub = loaded.module, loaded.hub
     try:
+        # the constructor of ANOTHER object of the same class, called while a construction is in flight, is fully checked
+        import icontract  # pylint: disable=import-outside-toplevel
+        for tag, call, want_outcome, want in (("inner-object-valid", lambda: mod.Interval(5, inner=7), "returned", ["interval:7", "interval:5"]),
+                                              ("inner-object-invalid", lambda: mod.Interval(5, inner=-7), "violation", None)):
+            hub.reset()
+            try:
+                call()
+                outcome = "returned"
+            except icontract.ViolationError:
+                outcome = "violation"
+            except BaseException as err:  # pylint: disable=broad-except
+                outcome = "raised {}: {}".format(type(err).__name__, str(err)[:100])
+            evs = [e.id for e in hub.events if e.kind == "inv"]
+            w.count("invocations_judged", 2)
+            w.count("must_check_invariants_invocations")
+            w.count("same_def_calls")
+            w.case(("constructor-of-another-object", tag))
+            if outcome != want_outcome or (want is not None and evs != want):
+                w.violation("C10/constructor-of-another-object-of-the-class-unchecked", "{}: {} with invariant evaluations {} (expected {}{})".format(
+                    tag, outcome, evs, want_outcome, "" if want is None else " with " + str(want)), {"same_def": tag})
         for tag, call, want in (
                 ("function-made-twice", lambda: mod.big(1), ["pre:big", "pre:small", "body:small", "post:small", "body:big", "post:big"]),
                 ("function-made-three-times", lambda: mod.huge(1), ["pre:huge", "pre:big", "pre:small", "body:small", "post:small", "body:big", "post:big",
